@@ -3,6 +3,7 @@ import FuModel.Find.Walk
 import FuModel.Base.Path
 import FuModel.Find.Numeric
 import FuModel.Find.PrintfFmt
+import FuModel.Find.Regex
 
 /-!
 # A whole run of find: starting points, configuration, walk, evaluation (`do_find`)
@@ -51,6 +52,7 @@ inductive Prim where
   | empty
   | samefile (dev ino : Nat)
   | lname (lit : Bytes)
+  | regex (icase : Bool) (re : FuModel.Find.Regex.Re)   -- -regex / -iregex, the pattern as abstract syntax
   | pathOut (pre : Bytes) (term : Bytes) -- writes pre ++ path ++ term  (-print, -print0, -printf 'pre%pterm')
   | lit (b : Bytes)                      -- -printf with literal text only
   | printf (comps : List FuModel.Find.Printf.Comp) (raw : List Char)   -- -printf: the parsed format (and its text)
@@ -342,6 +344,9 @@ def sem (start : Bytes) (v : Visit Attr) (p : Prim) (s : ES) : Bool × ES :=
       else some a.l
     ((match r with | some r => r.dev == dev && r.ino == ino | none => false), s)
   | .lname l => (fileType v == 'l' && (attrOf v).target == l, s)
+  | .regex ic re =>
+    -- the whole path, as printed, against the pattern
+    (FuModel.Find.Regex.matchesRe ic re (match String.fromUTF8? ⟨path.toArray⟩ with | some t => t.toList | none => []), s)
   | .pathOut pre term => (true, { s with gs := { s.gs with out := s.gs.out ++ pre ++ path ++ term } })
   | .lit b => (true, { s with gs := { s.gs with out := s.gs.out ++ b } })
   | .printf comps _ => (true, { s with gs := { s.gs with out := s.gs.out ++ PrintfR.render start v comps } })
@@ -490,13 +495,25 @@ inductive Arg where
   | tok (t : Tok Prim)        -- an ordinary token
   | depth | sorted | follow   -- options: always-true primaries with an effect on the configuration
   | delete                    -- the action; it also switches to post-order while the tree is built
+  | regextype (t : FuModel.Find.Regex.RType)   -- positional: applies to the -regex tokens that follow
+  | regex (icase : Bool) (printedIn : FuModel.Find.Regex.RType) (re : FuModel.Find.Regex.Re)
   | minDepth (n : Nat) | maxDepth (n : Nat)
   deriving Repr
 
 def Arg.tok' : Arg → Tok Prim
   | .tok t => t
   | .delete => .prim .delete
+  | .regex ic _ re => .prim (.regex ic re)
   | _ => .prim .opt
+
+/-- the syntax in force at each `-regex`: that of the nearest preceding `-regextype` in argument
+    order (emacs if none), whatever parentheses lie between; `none` = a pattern was written in a
+    syntax other than the one in force (an inconsistent request) -/
+def regexTypesOk : FuModel.Find.Regex.RType → List Arg → Bool
+  | _, [] => true
+  | _, .regextype t :: rest => regexTypesOk t rest
+  | cur, .regex _ printedIn _ :: rest => cur == printedIn && regexTypesOk cur rest
+  | cur, _ :: rest => regexTypesOk cur rest
 
 def applyArg (c : Config) : Arg → Config
   | .depth => { c with depthFirst := true }
@@ -505,7 +522,7 @@ def applyArg (c : Config) : Arg → Config
   | .follow => { c with follow := .always }
   | .minDepth n => { c with minDepth := n }
   | .maxDepth n => { c with maxDepth := n }
-  | .tok _ => c
+  | _ => c
 
 /-- the whole run: `-H`, `-L`, `-P` flag, starting points with what they resolve to, expression -/
 def run (follow : Follow) (roots : List (Bytes × Option (Node Attr))) (args : List Arg) (g0 : GS := {}) : Option RunRes :=
